@@ -1,7 +1,7 @@
 use std::cmp::min;
 
 use crate::CompressionError;
-use crate::lz13::get_occurrence_length;
+use crate::lz13::{get_occurrence_length, references_in_bounds};
 
 type Result<T> = std::result::Result<T, CompressionError>;
 
@@ -63,6 +63,9 @@ impl LZ10CompressionFormat {
     }
 
     pub fn decompress(&self, bytes: &[u8]) -> Result<Vec<u8>> {
+        if !references_in_bounds(bytes) {
+            return Err(CompressionError::InvalidInput("LZ10".to_string()));
+        }
         match nintendo_lz::decompress_arr(bytes) {
             Ok(decompressed_data) => Ok(decompressed_data),
             Err(_) => Err(CompressionError::InvalidInput("LZ10".to_string())),
